@@ -15,7 +15,8 @@ class C09Plan(Plan):
             "the outcomes must be identical.  A run is non-trivial when at least one operation started with "
             "history in its sub-tree (memo written at another point, half-written memo left by a failed call, "
             "memo written by another client's expression, a late object already switched to its symbolic path, "
-            "or a retry after a failure); distinct = distinct event-log digest")
+            "or a retry after a failure); distinct = distinct event-log digest."
+            "  Fixed residue classes of the run index are long histories (hundreds of operations on a handful of objects), hot loops (30-120 repeats of a query on the same object: per-object call thresholds) and wide / deep / many-variable worlds")
     assumptions = [
         "public constructors are deterministic and repr/== are side-effect free (C10 checks the latter)",
         "one API operation is one atomic step: no pre-emption inside an operation (the library makes no thread-safety claim)",
@@ -96,7 +97,8 @@ class C10Plan(Plan):
             "have that spec and repr, be == (both ways) and hash-equal to a freshly built twin, and evaluation-like "
             "operations must give what a twin built from the creation-time snapshot gives.  A run is non-trivial when "
             "it contains at least one rewriting operation (normalise / as_expression / early construction) on an "
-            "expression sharing nodes with another pooled object; distinct = distinct event-log digest")
+            "expression sharing nodes with another pooled object; distinct = distinct event-log digest."
+            "  Fixed residue classes of the run index are long histories (hundreds of operations on a handful of objects), hot loops (30-120 repeats of a query on the same object: per-object call thresholds) and wide / deep / many-variable worlds")
     assumptions = [
         "memo fields (_value, _is_fully_reduced, _evaluation_failed, Partial._synthetic_partial) are not part of what an object denotes",
         "the structural walker reads _inner/_left/_right/_inners/_parameter/name/value, _original_expression, _variable_name, Point._coordinates (feature-detected)",
@@ -149,7 +151,8 @@ class C06Plan(Plan):
             "the same (expression, variable, point) are all DomainError or equal within 1e-6*max(1,|a|,|b|); all "
             "as_expression() results for the same (expression, variable) are structurally equal; component/Partial and "
             "Differential.at/LocatedDifferential objects are ==.  A run is non-trivial when at least one (expression, "
-            "variable, point) was answered by >= 2 different route records; distinct = distinct event-log digest")
+            "variable, point) was answered by >= 2 different route records; distinct = distinct event-log digest."
+            "  Fixed residue classes of the run index are long histories (hundreds of operations on a handful of objects), hot loops (30-120 repeats of a query on the same object: per-object call thresholds) and wide / deep / many-variable worlds")
     assumptions = [
         "inputs are kept in a moderate regime (|constants| <= 3, dyadic-biased grid, depth <= 5)",
         "a disagreement is a candidate; it is discarded (and counted) when a route overflowed / produced inf or nan, or when "
